@@ -25,7 +25,7 @@ def make_backend(k):
         group_expression="({expr})",
         token_separator=k.get("sep", " "), or_token="or", and_token="and", not_token="not", eq_token="=",
         field_quote="'", field_quote_pattern=re.compile(r"^\w+\Z"), field_quote_pattern_negation=True,
-        field_escape="\\", field_escape_quote=True, field_escape_pattern=re.compile(r"[\\']" if k.get("fpat_overlap") else r"\\"),
+        field_escape="\\", field_escape_quote=True, field_escape_pattern=re.compile(r"[\\»']" if k.get("fpat_overlap") else r"[\\»]"),
         str_quote='"', escape_char="\\", wildcard_multi="*", wildcard_single="?",
         add_escaped="\\«»=~", filter_chars="",
         str_quote_pattern=re.compile(k["qpat"][0]) if k.get("qpat") else None,
